@@ -14,20 +14,22 @@ PROPS = "Gql.Props.C14"
 DRIVER = "drv_c14"
 LEVEL = "proof"
 LEVEL_TEXT = (
-    "Lean theorems about a model of OverlappingFieldsCanBeMergedRule as written (both memo tables with "
-    "their exclusivity flag, the per-selection-set cache, fuel-indexed recursion): do_types_conflict = not "
-    "SameResponseShape on types; same_arguments = equality of argument maps up to argument order and "
-    "input-object field order; soundness of a PairSet/OrderedPairSet hit; termination on cyclic fragment "
-    "spreads with an explicit recursion bound; and the equivalence with the specification for the part "
-    "stated in overlap_iff_partial.  The unrestricted equivalence (overlap_iff_full) is NOT proved: for it the "
-    "evidence is the three-way differential run (Python rule / Lean model / Lean transcription of "
-    "FieldsInSetCanMerge+SameResponseShape) on generated and exhaustively enumerated documents, i.e. testing."
+    "Lean theorem overlap_iff (= overlap_iff_full), for every schema and every document with no bound: the model of "
+    "OverlappingFieldsCanBeMergedRule as written (both memo tables with their exclusivity flag, the per-selection-set "
+    "cache, TypeInfo parent types, fuel-indexed recursion with the proved bound) returns and reports at least one "
+    "conflict iff the transcription of FieldsInSetCanMerge/SameResponseShape over fragment-expanded sets finds an "
+    "unmergeable pair - named fragments, cyclic spreads and a fragment reached under several parents included. "
+    "Also proved: do_types_conflict = not SameResponseShape on types; same_arguments = equality of argument maps up to "
+    "argument order and input-object field order (natural_comparison_key is a linear order); soundness of a pair-set "
+    "hit; termination with an explicit recursion bound. The model is tied to the Python code by the three-way "
+    "differential run (Python rule / Lean model / Lean spec) on generated and exhaustively enumerated documents."
 )
 LEVEL_NOTE = (
     "Trusted: Lean kernel; hand-written model Gql/Exec/Overlap.lean (tied to the code by the correspondence "
     "run: same conflicts, same field nodes, per document); hand-written spec Gql/Exec/SpecMerge.lean (read "
-    "against the GraphQL spec text); harness.  Experimental fragment arguments, __schema/__type selections "
-    "and documents with duplicate argument names are outside the statement."
+    "against the GraphQL spec text); harness.  Hypotheses of overlap_iff: selection-set identities distinct, unique "
+    "argument/input-field names, no __typename selection (known finding), operation roots are object types, ScalarLeafs, "
+    "spread names without parentheses.  Experimental fragment arguments and __schema/__type selections are outside the statement."
 )
 TECHNIQUE = "Lean 4 proof (model vs spec) + three-way differential correspondence"
 TRUSTED = [
@@ -49,7 +51,8 @@ ASSUMPTIONS = [
 ]
 EXPLANATION = (
     "Model = the rule as written; spec = FieldsInSetCanMerge/SameResponseShape over fragment-expanded sets. "
-    "Theorems: doTypesConflict_iff, sameArguments_iff, pairset_sound, terminates, overlap_iff_partial. "
+    "Theorems: overlap_iff (full equivalence, all documents), overlap_iff_nofrag, overlap_iff_partial, doTypesConflict_iff, "
+    "sameArguments_iff(_natural), pairset_sound, terminates. "
     "Correspondence: Python rule vs model (exact conflicts); oracle: Python rule yes/no vs spec through the driver; "
     "per-case timeout on the implementation = termination oracle."
 )
@@ -316,20 +319,6 @@ def explore(ctx) -> Report:
     jobs = [(ctx.seed, i, n_random // k + 1, n_two // k + 1, drv) for i in range(k)]
     for r in fw.pmap(_gen_chunk, jobs):
         rep.merge(r)
-    # fw.run_property only reports a broken correspondence when no failure at all is listed, and a
-    # listed KNOWN finding counts; make sure a correspondence break is never masked by one.
-    known = {k["fingerprint"] for k in fw.load_known() if k.get("property") == ID and k.get("status") == "known"}
-    if rep.disagreements and all(f.fingerprint in known for f in rep.failures):
-        extra = search(ctx, rep)
-        rep.merge(extra)
-        if all(f.fingerprint in known for f in rep.failures):
-            dgs = rep.disagreements[0]
-            rep.failures.append(Failure(
-                "model-vs-rule-disagreement-no-failing-input",
-                f"the rule and its Lean model report different conflicts ({dgs.component}) on {len(rep.disagreements)} documents, "
-                "so the theorems no longer speak about this code; no document was found on which the rule's yes/no differs "
-                "from the specification",
-                dgs.input, {"rule": dgs.impl}, {"model": dgs.model}, "correspondence Overlap.lean vs the Python rule"))
     rep.exhaustive = True
     rep.stats["exhaustive_docs"] = n_exh
     rep.rule = (
